@@ -182,3 +182,120 @@ def dlex_def(H, a, b, k):
     cv = CMP(H, h.dget(ra, ka), h.dget(rb, kb))
     return z3.If(z3.Or(k >= na, k >= nb), sgn_int(na, nb),
                  z3.If(ck != 0, ck, z3.If(cv != 0, cv, DLEX(H, a, b, k + 1))))
+
+
+# ---------------------------------------------------------------------------------------------
+# ground instances of CMP for native replays: the definition above unfolded on a concrete object graph
+# ---------------------------------------------------------------------------------------------
+
+def _g_type(x):
+    if x is None:
+        return 'null'
+    if x is True or x is False:
+        return 'boolean'
+    if isinstance(x, (int, float)):
+        return 'number'
+    if isinstance(x, str):
+        return 'string'
+    if isinstance(x, dict):
+        if '$ref' in x:
+            return 'array' if x['$ref'][0] == 'L' else 'object'
+        if '$float' in x:
+            return 'number'
+        if '$date' in x:
+            return 'datetime'
+        if '$func' in x:
+            return 'function'
+        if '$regex' in x:
+            return 'regex'
+    return 'unknown'
+
+
+def _g_num(x):
+    from fractions import Fraction
+    if isinstance(x, dict):
+        return Fraction(x['$float'])
+    return Fraction(x)
+
+
+def _sgn(a, b):
+    return -1 if a < b else (0 if a == b else 1)
+
+
+def ground_cmp(objects, a, b, depth=0):
+    """cmp_def/lex_def/dlex_def computed on replay values (`objects`: the replay object graph); None where this reference
+    does not decide (datetimes need the host's local offset; cyclic or very deep values)"""
+    if depth > 20:
+        return None
+    ta, tb = _g_type(a), _g_type(b)
+    if ta == 'null':
+        return 0 if tb == 'null' else -1
+    if tb == 'null':
+        return 1
+    if ta != tb:
+        return _sgn(ta, tb)
+    if ta == 'string':
+        return _sgn(a, b)
+    if ta == 'boolean':
+        return _sgn(int(a), int(b))
+    if ta == 'number':
+        return _sgn(_g_num(a), _g_num(b))
+    if ta == 'datetime':
+        return None
+    if ta == 'array':
+        la, lb = objects.get(a['$ref']), objects.get(b['$ref'])
+        if la is None or lb is None:
+            return None
+        for x, y in zip(la['items'], lb['items']):
+            c = ground_cmp(objects, x, y, depth + 1)
+            if c is None or c != 0:
+                return c
+        return _sgn(len(la['items']), len(lb['items']))
+    if ta == 'object':
+        da, db = objects.get(a['$ref']), objects.get(b['$ref'])
+        if da is None or db is None:
+            return None
+        for (ka, va), (kb, vb) in zip(sorted(map(tuple, da['items'])), sorted(map(tuple, db['items']))):
+            if ka != kb:
+                return _sgn(ka, kb)
+            c = ground_cmp(objects, va, vb, depth + 1)
+            if c is None or c != 0:
+                return c
+        return _sgn(len(da['items']), len(db['items']))
+    return 0      # two functions / regexes / host objects: equal type names
+
+
+def ground_cmp_facts(heaps, objects, values, limit=14):
+    """CMP(H, x, y) == c for the replay values of interest (at most limit^2 facts per heap)"""
+    from pyvc.concretize import ground_value
+    vals = []
+    for v in values:
+        if not any(v is w or (type(v) is type(w) and v == w) for w in vals):
+            vals.append(v)
+    vals = vals[:limit]
+    facts = []
+    for a in vals:
+        for b in vals:
+            c = ground_cmp(objects, a, b)
+            if c is None:
+                continue
+            for H in heaps:
+                facts.append(CMP(H, ground_value(a), ground_value(b)) == c)
+    return facts
+
+
+def replay_prepare_cmp(self, ctx, K, inputs, h0, h1):
+    """replay hook of the contracts stated over CMP: the ground instances among the call's arguments, their elements and
+    the elements of the argument list"""
+    objects = inputs['objects']
+    vals = []
+
+    def add(x, deep):
+        vals.append(x)
+        if deep and isinstance(x, dict) and '$ref' in x and x['$ref'][0] == 'L' and x['$ref'] in objects:
+            for y in objects[x['$ref']]['items']:
+                add(y, deep - 1)
+    for a in inputs['args']:
+        add(a, 2)
+    for f in ground_cmp_facts([h0.term(), h1.term()], objects, vals):
+        ctx.assume(f)
